@@ -125,6 +125,12 @@ class StmtMixin:
                     if r0 == "raise":
                         yield ("raise", old), s0
                         continue
+                    if isinstance(old, tuple) and old[:1] == ("accum",) and opname in ("BitOr", "Sub", "BitAnd"):
+                        # in-place set operators keep the collection's identity
+                        self.emit(s0, fx, "ACCUM", n, acc=old, src=val,
+                                  how={"BitOr": "update", "Sub": "difference_update", "BitAnd": "intersection_update"}[opname])
+                        yield None, s0
+                        continue
                     s0.env[t.id] = self.binop(opname, old, val)
                     yield None, s0
             elif isinstance(t, ast.Attribute):
